@@ -124,8 +124,8 @@ struct Conv {
                 vh::viol(nm + ":configuration", d + "converted field reports extents " + vh::jarr(b.backend().get_configuration(), N));
             std::string w = differs<FB, N, S, M>(b, e, model);
             if (!w.empty()) vh::viol(nm + ":values", d + w);
-            if (b.backend().get_backend().get_configuration()[0] < storage_len<LB, N>(e))
-                vh::viol(nm + ":storage-too-small", d + "storage " + std::to_string(b.backend().get_backend().get_configuration()[0]) + " < " + std::to_string(storage_len<LB, N>(e)));
+            // (how much storage the target allocates is not asserted here: any amount that covers the largest
+            //  curve position is correct; C18 checks exactly that bound and ASan watches every access)
             w = differs<FA, N, S, M>(a, e, model);
             if (!w.empty()) vh::viol(nm + ":source-changed", d + w);
             // writes to the copy must not show in the source
@@ -144,8 +144,6 @@ struct Conv {
                 vh::viol(nm + ":roundtrip-configuration", d + "round trip reports extents " + vh::jarr(a2.backend().get_configuration(), N));
             w = differs<FA, N, S, M>(a2, e, model);
             if (!w.empty()) vh::viol(nm + ":roundtrip-values", d + w);
-            if (a2.backend().get_backend().get_configuration()[0] != a.backend().get_backend().get_configuration()[0])
-                vh::viol(nm + ":roundtrip-storage-length", d + std::to_string(a2.backend().get_backend().get_configuration()[0]) + " != " + std::to_string(a.backend().get_backend().get_configuration()[0]));
             // move conversion
             FA tmp(a);
             FB b3(std::move(tmp));
@@ -292,7 +290,6 @@ static void to_device(std::size_t Bnd, vh::Rng & rng)
             if (!w.empty()) vh::viol(nm + ":values", d + w);
             w = differs<FA, N, S, M>(a, e, model);
             if (!w.empty()) vh::viol(nm + ":source-changed", d + w);
-            if (dev.backend().get_backend().get_configuration()[0] < storage_len<LB, N>(e)) vh::viol(nm + ":storage-too-small", d);
         }
         if (vshim().mallocs - m0 != vshim().frees - f0) vh::viol(nm + ":device-memory-leak", d + "cudaMalloc " + std::to_string(vshim().mallocs - m0) + " cudaFree " + std::to_string(vshim().frees - f0));
         if (!sc::trivial_ext<N>(e)) {
